@@ -8,18 +8,36 @@ TECH={
  "C15":"rapid metamorphic testing of plugin output (reruns, request variations) with byte-equality oracle",
  "C16":"rapid generation of degenerate descriptor graphs, bounded-time/memory process oracle",
 }
+TECH.update({
+ "C01":"rapid property-based testing of emitted code: generated Go client against generated Go server over generated schemas and values, round-trip oracle",
+ "C04":"rapid property-based testing of emitted codecs: round-trip and reference-model (contract form) oracles over generated schemas and values",
+ "C05":"rapid model-based testing: server wire JSON vs an independent executable model of the documented mapping, both directions",
+ "C13":"rapid generation of schemas in a compile matrix; oracle = go build + go vet on emitted packages, Node type-stripping import of emitted TypeScript; IR-level shrinking",
+})
 TEXT={
  "C12":("Generated-input search: every rule x placement cell of the documented catalogue is injected into rapid-drawn valid schemas and judged at the process boundary of the real plugins; the converse is checked on every base schema. Exploration, not proof: cells are enumerated, surroundings sampled.","§5 C12"),
  "C14":("Differential property test over rapid-drawn schemas: byte identity of same-named files, plus behavioural equality of server-only and client-only builds on generated values. Exploration.","§5 C14"),
  "C15":("Metamorphic property test: the same schema is generated under rerun / GOMAXPROCS / extra files / multi-package / permuted order / parameter spelling variations, outputs must be byte-identical. Map-order nondeterminism is sampled with fresh processes. Exploration.","§5 C15"),
  "C16":("Generated degenerate descriptor sets (cycles, depth, width, long names, WKTs, empty services, missing go_package) x parameters; each plugin process must answer within 20 s / 2 GiB without panic. Bounded observation of termination, not a liveness proof.","§5 C16"),
 }
+TEXT.update({
+ "C01":("Batches of rapid-drawn schemas are compiled and linked with a generic engine; for every RPC rapid draws request/response values (reserved URL characters, extremes, presence states) and a content type, the generated client calls the generated server, and request/response equality is checked. Exploration with shrinking of values; schemas are sampled.","§5 C01"),
+ "C04":("For every message type of rapid-drawn schemas the emitted MarshalJSON/UnmarshalJSON (or protojson, as dispatched by the generated code) must round-trip drawn values and accept the reference model's contract form. Exploration.","§5 C04"),
+ "C05":("The generated server is driven over HTTP with model-encoded bodies; handler-visible requests and response bodies are compared tree-by-tree with the reference model M. Exploration over schemas x values; M is an independent implementation of the documented mapping.","§5 C05, Appendix A"),
+ "C13":("Every emitted package (go-http only, go-client only, both; with and without mock) is built and vetted with the analyzers go test runs; every emitted .ts module is imported in Node 22. Exploration over a compile matrix of annotation x cardinality x naming.","§5 C13"),
+})
 NOTE={
  "C12":"Trusted: schema generator + protodesc gate stand in for protoc; error text naming the offender is the 'names the offender' criterion.",
  "C14":"Trusted: protoc-gen-go, Go toolchain, protovalidate stand-in (not exercised by codecs).",
  "C15":"Trusted: process isolation gives fresh map seeds; only documented-equivalent parameter spellings compared.",
  "C16":"Trusted: rusage peak RSS and wall-clock bound; descriptor well-formedness via generator + protodesc gate.",
 }
+NOTE.update({
+ "C01":"Trusted: in-memory RoundTripper re-parsing the request line like a server; protovalidate stand-in; protoc-gen-go; net/http.",
+ "C04":"Trusted: reference model M (documentation-derived), protojson for the un-annotated base mapping, protovalidate stand-in (not exercised).",
+ "C05":"Trusted: reference model M; in-memory HTTP; undocumented cases are skipped and counted, never guessed.",
+ "C13":"Trusted: Go toolchain; Node 22 type stripping detects syntax/load errors only (no tsc offline); stand-in protovalidate has the real API surface used by emitted code.",
+})
 claimed=sorted(TECH)
 checks=[]
 for p in claimed:
